@@ -21,7 +21,8 @@ CONSTANTS
   InitVals,   \* validators at assembly (Self among them)
   InitCAs,    \* those with IsCA
   MaxChg,     \* validator-set changes in one behaviour
-  MaxRefuse   \* size of the refuse list
+  MaxRefuse,  \* size of the refuse list
+  Combine     \* FALSE: a behaviour changes either the validator set or the refuse list, not both (smaller graph)
 
 VARIABLES
   authByCA,   \* conf auth_by_ca (read once, at assembly)
@@ -67,6 +68,7 @@ Connect(auth, ann, signer, over, r) ==
 
 Change(V, C, what) ==
   /\ nchg < MaxChg /\ nchg' = nchg + 1
+  /\ Combine \/ refuse = {}
   /\ vals' = V /\ cas' = C
   /\ res' = what
   /\ UNCHANGED <<authByCA, nva, refuse, startVals, startCAs>>
@@ -78,6 +80,7 @@ SetCA(k, ca)   == k \in vals \ {Self} /\ (ca # (k \in cas))
 
 AddRefuse(k) ==
   /\ k \in Keys \ refuse /\ Cardinality(refuse) < MaxRefuse
+  /\ Combine \/ nchg = 0
   /\ refuse' = refuse \cup {k} /\ res' = [op |-> "AddRefuse", k |-> k]
   /\ UNCHANGED <<authByCA, nva, vals, cas, startVals, startCAs, nchg>>
 DelRefuse(k) ==
